@@ -30,7 +30,7 @@ func runC16(c *Ctx) {
 	r := c.R
 	r.Rule("R16-exit-halts", "every way out of the command loop halts the search and clears the active flag before the output channel is closed", 3)
 	r.Rule("R16-close-owner", "the output channel is sent to only by the goroutine that closes it or by goroutines it has joined before closing", 1)
-	r.Rule("R16-stale", "a goroutine that can complete a search is tied to that search: joined before the next search is armed, or guarded by a per-search token; info lines are printed only for the search they belong to; the cleared flag cannot be won", 3)
+	r.Rule("R16-stale", "a goroutine that can complete a search is tied to that search: joined before the next search is armed, or guarded by a per-search token; info lines are printed only for the search they belong to; the cleared flag cannot be won; completion is claimed and emitted by the command loop itself", 4)
 	r.Rule("R16-ready", "isready is always answered; no command other than quit (or end of input / close) terminates the command loop", 3)
 	r.Rule("R16-locks", "engine state is accessed only with the engine mutex held; driver state that is not atomic is touched only by the command-loop goroutine; goroutines started by the driver capture only the driver, the context, the result channel and the infinite flag", 4)
 	r.Rule("R16-noblock", "no mutex is held across a blocking channel receive whose producer needs the same mutex (the halt/publish hand-shake cannot deadlock)", 1)
@@ -309,6 +309,20 @@ func c16Channels(c *Ctx, d *driverModel) {
 		}
 	}
 	r.Check(joined || untagged == "", "R16-stale", "info lines are printed only for the search they belong to", c.pos(d.process.Pos()), "", "the command loop prints intermediate information whenever the flag is set ("+untagged+"), whichever search produced it: after 'go', 'go' the lines of the superseded search appear as the new search's")
+	// claim and emission are one step for the command loop only if the loop itself performs them: a goroutine
+	// that wins the flag and is then delayed (full output channel, preemption) emits after the loop has already
+	// handled the next position/go/isready - a bestmove of the old search behind the readyok of the new one
+	var outside []string
+	for _, gt := range goTargets(d.process) {
+		if gt.timer {
+			continue
+		}
+		if senders[gt.fn] {
+			outside = append(outside, c.P.FuncName(gt.fn))
+		}
+	}
+	sort.Strings(outside)
+	r.Check(len(outside) == 0, "R16-stale", "searches are completed by the command loop itself", c.pos(d.process.Pos()), "", fmt.Sprintf("%v call the completion function from their own goroutine: the compare-and-swap that claims the answer and the sends that emit it are not atomic with respect to the command loop - 'go depth 1' (ends by itself, reader slow), 'position ...', 'go depth 1', 'isready' yields readyok followed by the first search's bestmove", outside))
 	r.Check(zeroWin == "", "R16-stale", "the completion cannot win the cleared flag", c.pos(d.searchCompleted.Pos()), "", "the compare-and-swap at "+zeroWin+" accepts the cleared value as the expected id: a 'stop' that arrives after a search has ended by itself (flag clear, engine handle still registered) wins 0 -> 0 and answers a second time for the finished search")
 	r.Check(joined || tokenised || !casOnBool, "R16-stale", "search completion is guarded by one shared boolean", c.pos(d.searchCompleted.Pos()), "", "searchCompleted decides with CompareAndSwap(true,false) on a single atomic.Bool shared by all searches, and the forwarding goroutine of a superseded search is not joined (Engine.Halt returns before it has drained): after 'go', 'go' the forwarder of the first search can win the flag armed for the second and emit a stale bestmove")
 }
